@@ -17,6 +17,8 @@ UpdateEvent(ev) ==
    IN /\ Ck("tree.len", ev.len = t)
       /\ Ck("tree.leaf_ids_complete", ev.nleaves_own = Cardinality(L2))
       /\ Ck("tree.routed_is_leaf", r \in L2)
+      \* the leaf the storage routes the observation to is the leaf the tree itself sends it to (independent traversal)
+      /\ Ck("tree.routed_as_the_tree_routes", ev.routed_own = 0 \/ ev.routed_own = r)
       /\ Ck("tree.keys_are_leaves", DOMAIN post \subseteq L2)
       /\ Ck("tree.bounded", \A k \in DOMAIN post : Len(post[k]) <= Tr.cap /\ Len(post[k]) >= 1)
       /\ Ck("tree.contents_observed", \A k \in DOMAIN post : \A i \in 1..Len(post[k]) : post[k][i] \in 1..t)
